@@ -62,34 +62,26 @@ theorem innerStep_fields2 (a : ACfg) (s : St) (e : Sess.Ev) :
 /-! ### `await app.close()` past its guard -/
 
 /-- who may start waiting for the close event, and in which program -/
-def CloseCaller (a : ACfg) (s : St) (t : ATid) (p : AProg) : Prop :=
-  (t = .D2 ∧ s.astatus .D2 = .ready ∧ ∃ v, p = .handlerClose v ∧ (a.msgBeh v = .close ∨ ∃ k, a.msgBeh v = .awaitClose k)) ∨
-  (t = .D2 ∧ s.astatus .D2 = .cancelled ∧ ∃ v, p = .cleanupClose v) ∨
-  (∃ u, t = .W u ∧ s.astatus (.W u) = .absent ∧ p = .closeWait u ∧ s.built = true)
+def CloseCaller (_a : ACfg) (s : St) (t : ATid) (p : AProg) : Prop :=
+  ∃ u, t = .W u ∧ s.astatus (.W u) = .absent ∧ p = .closeWait u ∧ s.built = true
 
 theorem startClose_K {a : ACfg} {s : St} (ib : InvB2 a s) (is : InvS a s) (t : ATid) (p : AProg)
     (hev : s.evt = none) (hac : s.appClosed = false) (hcc : CloseCaller a s t p) :
     InvB2 a (startClose a s t p) ∧ InvS a (startClose a s t p) := by
   have hbuilt : s.built = true := by
-    rcases hcc with ⟨rfl, h, _⟩ | ⟨rfl, h, _⟩ | ⟨u, _, _, _, h⟩
-    · cases hb : s.built with
-      | true => rfl
-      | false => have := is.nb hb .D2; rw [h] at this; contradiction
-    · cases hb : s.built with
-      | true => rfl
-      | false => have := is.nb hb .D2; rw [h] at this; contradiction
-    · exact h
+    obtain ⟨u, _, _, _, h⟩ := hcc
+    exact h
   have hnf : s.cpc ≠ .finished := by
     intro h
     have := ib.ac2 hbuilt (by rw [h]; rfl)
     rw [hac] at this; contradiction
   have h0 : InvB2 a { s with evt := some false } ∧ InvS a { s with evt := some false } := by
     obtain ⟨b, tc, bu, q, q', ac1, ac2, ac3, ev1, ev2, ev0, ub, ph⟩ := ib
-    obtain ⟨nb, we, wv, ty, wq, d2, cc, hc', can, v2, dn, vn, da, vs⟩ := is
+    obtain ⟨nb, we, wv, ty, wq, d2, cc, hc', can, v2, dn, vn, da, vs, dnf, ip, ds, hs⟩ := is
     have hph' : mon2Run ({ s with evt := some false } : St).trace2 = phase2 a { s with evt := some false } := ph
     constructor
     · refine ⟨?_, ?_, ?_, ?_, ?_, ?_, ?_, ?_, ?_, ?_, ?_, ?_, hph'⟩ <;> grind [midStage, lateStage]
-    · refine ⟨?_, ?_, ?_, ?_, ?_, ?_, ?_, ?_, ?_, ?_, ?_, ?_, ?_, ?_⟩ <;> grind [midStage, lateStage, alive2]
+    · refine ⟨?_, ?_, ?_, ?_, ?_, ?_, ?_, ?_, ?_, ?_, ?_, ?_, ?_, ?_, ?_, ?_, ?_, ?_⟩ <;> grind [midStage, lateStage, alive2]
   obtain ⟨h1b, h1s⟩ := innerStep_K .callInitiateClose h0.1 h0.2
   obtain ⟨f1, f2, f3, f4, f5, f6, f7, f8⟩ := innerStep_fields2 a { s with evt := some false } .callInitiateClose
   have ht2 := innerStep_trace2 a { s with evt := some false } .callInitiateClose
@@ -98,11 +90,12 @@ theorem startClose_K {a : ACfg} {s : St} (ib : InvB2 a s) (is : InvS a s) (t : A
   generalize innerStep a { s with evt := some false } .callInitiateClose = s1 at *
   have hstat : s1.astatus t = s.astatus t := by
     apply f8
-    rcases hcc with ⟨rfl, h, _⟩ | ⟨rfl, h, _⟩ | ⟨u, rfl, h, _⟩ <;> (show s.astatus _ ≠ _; rw [h]; simp)
+    obtain ⟨u, rfl, h, _⟩ := hcc
+    show s.astatus _ ≠ _; rw [h]; simp
   obtain ⟨b, tc, bu, q, q', ac1, ac2, ac3, ev1, ev2, ev0, ub, ph⟩ := h1b
-  obtain ⟨nb, we, wv, ty, wq, d2, cc, hc', can, v2, dn, vn, da, vs⟩ := h1s
+  obtain ⟨nb, we, wv, ty, wq, d2, cc, hc', can, v2, dn, vn, da, vs, dnf, ip, ds, hs⟩ := h1s
   obtain ⟨b0, tc0, bu0, q0, q0', ac10, ac20, ac30, ev10, ev20, ev00, ub0, ph0⟩ := ib
-  obtain ⟨nb0, we0, wv0, ty0, wq0, d20, cc0, hc0, can0, v20, dn0, vn0, da0, vs0⟩ := is
+  obtain ⟨nb0, we0, wv0, ty0, wq0, d20, cc0, hc0, can0, v20, dn0, vn0, da0, vs0, dnf0, ip0, ds0, hs0⟩ := is
   have f1' : s1.evt = some false := f1
   have f2' : s1.cpc = s.cpc := f2
   have f3' : s1.aprog = s.aprog := f3
@@ -112,9 +105,90 @@ theorem startClose_K {a : ACfg} {s : St} (ib : InvB2 a s) (is : InvS a s) (t : A
   unfold CloseCaller at hcc
   constructor
   · refine ⟨?_, ?_, ?_, ?_, ?_, ?_, ?_, ?_, ?_, ?_, ?_, ?_, hph'⟩ <;> simp only [St.setA, St.setP] <;> grind [midStage, lateStage]
-  · refine ⟨?_, ?_, ?_, ?_, ?_, ?_, ?_, ?_, ?_, ?_, ?_, ?_, ?_, ?_⟩ <;> simp only [St.setA, St.setP] <;>
+  · refine ⟨?_, ?_, ?_, ?_, ?_, ?_, ?_, ?_, ?_, ?_, ?_, ?_, ?_, ?_, ?_, ?_, ?_, ?_⟩ <;> simp only [St.setA, St.setP] <;>
       grind [midStage, lateStage, alive2, allowed2]
 
+
+/-! ### `await app.close()` from the message callback: carried out by `D2` -/
+
+theorem d2Return_handlerClose (s : St) (v : Nat) (h1 : s.astatus .D2 = .inSoup) (h2 : s.aprog .D2 = .handlerClose v) :
+    d2Return s = if s.q2Closed then ((s.emit2 (.closeRet (.handler v) .ok)).emit2 (.msgExit v)).finish2 .D2
+      else { ((((s.emit2 (.closeRet (.handler v) .ok)).emit2 (.msgExit v)).setA .D2 .ready).setP .D2 .dispLoop) with imm2 := true } := by
+  simp [d2Return, h1, h2]
+
+theorem d2Return_cleanupClose (s : St) (v : Nat) (h1 : s.astatus .D2 = .inSoup) (h2 : s.aprog .D2 = .cleanupClose v) :
+    d2Return s = ((s.emit2 (.closeRet (.handler v) .ok)).emit2 (.msgAbandon v)).finish2 .D2 := by
+  simp [d2Return, h1, h2]
+
+theorem closeOnD2_K {a : ACfg} {s : St} (iy : InvY a s) (ib : InvB2 a s) (is : InvS a s) (p : AProg)
+    (hev : s.evt = none) (hac : s.appClosed = false)
+    (hcc : (s.astatus .D2 = .ready ∧ ∃ v, p = .handlerClose v ∧ (a.msgBeh v = .close ∨ ∃ k, a.msgBeh v = .awaitClose k)) ∨
+      (s.astatus .D2 = .cancelled ∧ ∃ v, p = .cleanupClose v)) :
+    InvB2 a (closeOnD2 a s p) ∧ InvS a (closeOnD2 a s p) := by
+  have hbuilt : s.built = true := by
+    cases hb : s.built with
+    | true => rfl
+    | false =>
+      have := is.nb hb .D2
+      rcases hcc with ⟨h, _⟩ | ⟨h, _⟩ <;> (rw [h] at this; contradiction)
+  have hnf : s.cpc ≠ .finished := by
+    intro h
+    have := ib.ac2 hbuilt (by rw [h]; rfl)
+    rw [hac] at this; contradiction
+  have h0 : InvB2 a { s with evt := some false } ∧ InvS a { s with evt := some false } := by
+    obtain ⟨b, tc, bu, q, q', ac1, ac2, ac3, ev1, ev2, ev0, ub, ph⟩ := ib
+    obtain ⟨nb, we, wv, ty, wq, d2, cc, hc', can, v2, dn, vn, da, vs, dnf, ip, ds, hs⟩ := is
+    have hph' : mon2Run ({ s with evt := some false } : St).trace2 = phase2 a { s with evt := some false } := ph
+    constructor
+    · refine ⟨?_, ?_, ?_, ?_, ?_, ?_, ?_, ?_, ?_, ?_, ?_, ?_, hph'⟩ <;> grind [midStage, lateStage]
+    · refine ⟨?_, ?_, ?_, ?_, ?_, ?_, ?_, ?_, ?_, ?_, ?_, ?_, ?_, ?_, ?_, ?_, ?_, ?_⟩ <;> grind [midStage, lateStage, alive2]
+  unfold closeOnD2
+  simp only
+  generalize hs0 : ({ s with evt := some false } : St) = s0 at h0
+  have e1 : s0.astatus = s.astatus := by rw [← hs0]
+  have e2 : s0.cpc = s.cpc := by rw [← hs0]
+  have e3 : s0.inner = s.inner := by rw [← hs0]
+  have e4 : s0.built = s.built := by rw [← hs0]
+  have e5 : s0.evt = some false := by rw [← hs0]
+  obtain ⟨ib0, is0⟩ := h0
+  split
+  · -- the soup session is already closed or closing: `soup_session.close()` returns at once
+    rcases hcc with ⟨hst, v, rfl, hbeh⟩ | ⟨hst, v, rfl⟩
+    · rw [d2Return_handlerClose _ v (by simp [St.setA, St.setP]) (by simp [St.setA, St.setP])]
+      obtain ⟨nb, we, wv, ty, wq, d2, cc, hc', can, v2, dn, vn, da, vs, dnf, ip, ds, hs⟩ := is0
+      split
+      · refine ⟨InvB2.of_core (s := (s0.emit2 (.closeRet (.handler v) .ok)).emit2 (.msgExit v)) rfl ((ib0.emit2 rfl).emit2 rfl), ?_⟩
+        refine ⟨?_, ?_, ?_, ?_, ?_, ?_, ?_, ?_, ?_, ?_, ?_, ?_, ?_, ?_, ?_, ?_, ?_, ?_⟩ <;>
+          simp only [St.finish2, St.emit2, St.setA, St.setP] <;> grind [midStage, lateStage, alive2, allowed2]
+      · refine ⟨InvB2.of_core (s := (s0.emit2 (.closeRet (.handler v) .ok)).emit2 (.msgExit v))
+          (by simp only [bcore2, St.trace2, St.emit2, St.setA, St.setP]) ((ib0.emit2 rfl).emit2 rfl), ?_⟩
+        refine ⟨?_, ?_, ?_, ?_, ?_, ?_, ?_, ?_, ?_, ?_, ?_, ?_, ?_, ?_, ?_, ?_, ?_, ?_⟩ <;>
+          simp only [St.finish2, St.emit2, St.setA, St.setP] <;> grind [midStage, lateStage, alive2, allowed2]
+    · rw [d2Return_cleanupClose _ v (by simp [St.setA, St.setP]) (by simp [St.setA, St.setP])]
+      obtain ⟨nb, we, wv, ty, wq, d2, cc, hc', can, v2, dn, vn, da, vs, dnf, ip, ds, hs⟩ := is0
+      refine ⟨InvB2.of_core (s := (s0.emit2 (.closeRet (.handler v) .ok)).emit2 (.msgAbandon v)) rfl ((ib0.emit2 rfl).emit2 rfl), ?_⟩
+      refine ⟨?_, ?_, ?_, ?_, ?_, ?_, ?_, ?_, ?_, ?_, ?_, ?_, ?_, ?_, ?_, ?_, ?_, ?_⟩ <;>
+        simp only [St.finish2, St.emit2, St.setA, St.setP] <;> grind [midStage, lateStage, alive2, allowed2]
+  · -- `D2` becomes the closer of the soup session
+    rename_i hcl
+    have hcl' : s.inner.closed = false := by
+      have : s0.inner.closed = false := by simpa [St.setA, St.setP] using hcl
+      rw [e3] at this; exact this
+    have hidle : s0.cpc = .idle := by
+      rw [e2]
+      cases h : s.cpc with
+      | idle => rfl
+      | _ => have := ib.b (by rw [h]; simp); rw [hcl'] at this; contradiction
+    have iy1 : InvY a ((s0.setA .D2 .inSoup).setP .D2 p) := iy.frame (by simp [e3]) (by simp [St.setA, St.setP, e2])
+    have ib1 : InvB2 a ((s0.setA .D2 .inSoup).setP .D2 p) := InvB2.of_core (s := s0) rfl ib0
+    have is1 : InvS a ((s0.setA .D2 .inSoup).setP .D2 p) := by
+      obtain ⟨nb, we, wv, ty, wq, d2, cc, hc', can, v2, dn, vn, da, vs, dnf, ip, ds, hs⟩ := is0
+      rcases hcc with ⟨hst, v, rfl, hbeh⟩ | ⟨hst, v, rfl⟩
+      · refine ⟨?_, ?_, ?_, ?_, ?_, ?_, ?_, ?_, ?_, ?_, ?_, ?_, ?_, ?_, ?_, ?_, ?_, ?_⟩ <;>
+          simp only [St.setA, St.setP] <;> grind [midStage, lateStage, alive2, allowed2]
+      · refine ⟨?_, ?_, ?_, ?_, ?_, ?_, ?_, ?_, ?_, ?_, ?_, ?_, ?_, ?_, ?_, ?_, ?_, ?_⟩ <;>
+          simp only [St.setA, St.setP] <;> grind [midStage, lateStage, alive2, allowed2]
+    exact passInner_K iy1 ib1 is1 _
 
 /-! ### the second dispatcher, the receive helper, the user tasks -/
 
@@ -140,7 +214,7 @@ theorem InvB2.emit_msgEnter {a : ACfg} {s : St} (ib : InvB2 a s) (hq : s.q2Close
   show mon2 0 (.msgEnter v) = phase2 a s
   rw [h0]; rfl
 
-theorem dispHandle2_K {a : ACfg} {s : St} (ib : InvB2 a s) (is : InvS a s) (v : Nat)
+theorem dispHandle2_K {a : ACfg} {s : St} (iy : InvY a s) (ib : InvB2 a s) (is : InvS a s) (v : Nat)
     (hD : s.astatus .D2 = .ready) (hp : s.aprog .D2 = .dispLoop) :
     InvB2 a (dispHandle2 a s v) ∧ InvS a (dispHandle2 a s v) := by
   unfold dispHandle2
@@ -148,8 +222,8 @@ theorem dispHandle2_K {a : ACfg} {s : St} (ib : InvB2 a s) (is : InvS a s) (v : 
   · exact ⟨InvB2.of_core (s := s.emit2 (.msgExit v)) rfl (ib.emit2 rfl), InvS.of_core (s := s) rfl is⟩
   · rename_i k hk
     refine ⟨InvB2.of_core (s := s) rfl ib, ?_⟩
-    obtain ⟨nb, we, wv, ty, wq, d2, cc, hc', can, v2, dn, vn, da, vs⟩ := is
-    refine ⟨?_, ?_, ?_, ?_, ?_, ?_, ?_, ?_, ?_, ?_, ?_, ?_, ?_, ?_⟩ <;> simp only [St.setP] <;>
+    obtain ⟨nb, we, wv, ty, wq, d2, cc, hc', can, v2, dn, vn, da, vs, dnf, ip, ds, hs⟩ := is
+    refine ⟨?_, ?_, ?_, ?_, ?_, ?_, ?_, ?_, ?_, ?_, ?_, ?_, ?_, ?_, ?_, ?_, ?_, ?_⟩ <;> simp only [St.setP] <;>
       grind [midStage, lateStage, alive2, allowed2]
   · exact ⟨InvB2.of_core (s := s.emit2 (.msgRaise v)) rfl (ib.emit2 rfl), InvS.of_core (s := s) rfl is⟩
   · rename_i hbeh
@@ -158,26 +232,26 @@ theorem dispHandle2_K {a : ACfg} {s : St} (ib : InvB2 a s) (is : InvS a s) (v : 
         InvS.of_core (s := s) rfl is⟩
     · rename_i hg
       simp only [Bool.or_eq_true, not_or, Bool.not_eq_true, Option.isSome_eq_false_iff, Option.isNone_iff_eq_none] at hg
-      exact startClose_K ib is _ _ hg.1 hg.2 (Or.inl ⟨rfl, hD, v, rfl, Or.inl hbeh⟩)
+      exact closeOnD2_K iy ib is _ hg.1 hg.2 (Or.inl ⟨hD, v, rfl, Or.inl hbeh⟩)
   · rename_i k hk
     refine ⟨InvB2.of_core (s := s) rfl ib, ?_⟩
-    obtain ⟨nb, we, wv, ty, wq, d2, cc, hc', can, v2, dn, vn, da, vs⟩ := is
-    refine ⟨?_, ?_, ?_, ?_, ?_, ?_, ?_, ?_, ?_, ?_, ?_, ?_, ?_, ?_⟩ <;> simp only [St.setP] <;>
+    obtain ⟨nb, we, wv, ty, wq, d2, cc, hc', can, v2, dn, vn, da, vs, dnf, ip, ds, hs⟩ := is
+    refine ⟨?_, ?_, ?_, ?_, ?_, ?_, ?_, ?_, ?_, ?_, ?_, ?_, ?_, ?_, ?_, ?_, ?_, ?_⟩ <;> simp only [St.setP] <;>
       grind [midStage, lateStage, alive2, allowed2]
   · rename_i k hk
     refine ⟨InvB2.of_core (s := s) rfl ib, ?_⟩
-    obtain ⟨nb, we, wv, ty, wq, d2, cc, hc', can, v2, dn, vn, da, vs⟩ := is
-    refine ⟨?_, ?_, ?_, ?_, ?_, ?_, ?_, ?_, ?_, ?_, ?_, ?_, ?_, ?_⟩ <;> simp only [St.setP] <;>
+    obtain ⟨nb, we, wv, ty, wq, d2, cc, hc', can, v2, dn, vn, da, vs, dnf, ip, ds, hs⟩ := is
+    refine ⟨?_, ?_, ?_, ?_, ?_, ?_, ?_, ?_, ?_, ?_, ?_, ?_, ?_, ?_, ?_, ?_, ?_, ?_⟩ <;> simp only [St.setP] <;>
       grind [midStage, lateStage, alive2, allowed2]
 
-theorem stepDisp2_K {a : ACfg} {s : St} (ib : InvB2 a s) (is : InvS a s)
+theorem stepDisp2_K {a : ACfg} {s : St} (iy : InvY a s) (ib : InvB2 a s) (is : InvS a s)
     (hD : s.astatus .D2 = .ready) (hp : s.aprog .D2 = .dispLoop) :
     InvB2 a (stepDisp2 a s) ∧ InvS a (stepDisp2 a s) := by
   unfold stepDisp2
   split
   · refine ⟨InvB2.of_core (s := s) rfl ib, ?_⟩
-    obtain ⟨nb, we, wv, ty, wq, d2, cc, hc', can, v2, dn, vn, da, vs⟩ := is
-    refine ⟨?_, ?_, ?_, ?_, ?_, ?_, ?_, ?_, ?_, ?_, ?_, ?_, ?_, ?_⟩ <;> simp only [St.finish2] <;>
+    obtain ⟨nb, we, wv, ty, wq, d2, cc, hc', can, v2, dn, vn, da, vs, dnf, ip, ds, hs⟩ := is
+    refine ⟨?_, ?_, ?_, ?_, ?_, ?_, ?_, ?_, ?_, ?_, ?_, ?_, ?_, ?_, ?_, ?_, ?_, ?_⟩ <;> simp only [St.finish2] <;>
       grind [midStage, lateStage, alive2, allowed2]
   · rename_i hq
     have hq' : s.q2Closed = false := by simpa using hq
@@ -185,11 +259,12 @@ theorem stepDisp2_K {a : ACfg} {s : St} (ib : InvB2 a s) (is : InvS a s)
     · exact ⟨ib, is⟩
     · split
       · refine ⟨InvB2.of_core (s := s) rfl ib, ?_⟩
-        obtain ⟨nb, we, wv, ty, wq, d2, cc, hc', can, v2, dn, vn, da, vs⟩ := is
-        refine ⟨?_, ?_, ?_, ?_, ?_, ?_, ?_, ?_, ?_, ?_, ?_, ?_, ?_, ?_⟩ <;> simp only [St.setA] <;>
+        obtain ⟨nb, we, wv, ty, wq, d2, cc, hc', can, v2, dn, vn, da, vs, dnf, ip, ds, hs⟩ := is
+        refine ⟨?_, ?_, ?_, ?_, ?_, ?_, ?_, ?_, ?_, ?_, ?_, ?_, ?_, ?_, ?_, ?_, ?_, ?_⟩ <;> simp only [St.setA] <;>
           grind [midStage, lateStage, alive2, allowed2]
       · rename_i v q hqu
         apply dispHandle2_K
+        · exact iy.frame rfl rfl
         · exact InvB2.emit_msgEnter (s := { s with q2 := q, gone2 := s.gone2 ++ [(v, true)] })
             (InvB2.of_core (s := s) rfl ib) hq' v
         · exact InvS.of_core (s := s) rfl is
@@ -198,26 +273,26 @@ theorem stepDisp2_K {a : ACfg} {s : St} (ib : InvB2 a s) (is : InvS a s)
 
 /-- closes an `InvS` goal about a state built with the small algebra from a state whose `InvS` fields are in the context -/
 macro "ksolve" : tactic => `(tactic|
-  (refine ⟨?_, ?_, ?_, ?_, ?_, ?_, ?_, ?_, ?_, ?_, ?_, ?_, ?_, ?_⟩ <;>
+  (refine ⟨?_, ?_, ?_, ?_, ?_, ?_, ?_, ?_, ?_, ?_, ?_, ?_, ?_, ?_, ?_, ?_, ?_, ?_⟩ <;>
     simp only [St.finish2, St.emit2, St.setA, St.setP, St.spawn2] <;>
     first
       | grind [midStage, lateStage, alive2]
       | grind [midStage, lateStage, alive2, allowed2]))
 
-theorem handlerDone_K {a : ACfg} {s : St} (ib : InvB2 a s) (is : InvS a s) (v : Nat) (hD : s.astatus .D2 = .ready) :
+theorem handlerDone_K {a : ACfg} {s : St} (iy : InvY a s) (ib : InvB2 a s) (is : InvS a s) (v : Nat) (hD : s.astatus .D2 = .ready) :
     InvB2 a (handlerDone a s .D2 v) ∧ InvS a (handlerDone a s .D2 v) := by
   unfold handlerDone
   split
   · rename_i k hbeh
     split
     · refine ⟨InvB2.of_core (s := (s.emit2 (.closeRet (.handler v) .ok)).emit2 (.msgExit v)) rfl ((ib.emit2 rfl).emit2 rfl), ?_⟩
-      obtain ⟨nb, we, wv, ty, wq, d2, cc, hc', can, v2, dn, vn, da, vs⟩ := is
+      obtain ⟨nb, we, wv, ty, wq, d2, cc, hc', can, v2, dn, vn, da, vs, dnf, ip, ds, hs⟩ := is
       ksolve
     · rename_i hg
       simp only [Bool.or_eq_true, not_or, Bool.not_eq_true, Option.isSome_eq_false_iff, Option.isNone_iff_eq_none] at hg
-      exact startClose_K ib is _ _ hg.1 hg.2 (Or.inl ⟨rfl, hD, v, rfl, Or.inr ⟨k, hbeh⟩⟩)
+      exact closeOnD2_K iy ib is _ hg.1 hg.2 (Or.inl ⟨hD, v, rfl, Or.inr ⟨k, hbeh⟩⟩)
   · refine ⟨InvB2.of_core (s := s.emit2 (.msgExit v)) rfl (ib.emit2 rfl), ?_⟩
-    obtain ⟨nb, we, wv, ty, wq, d2, cc, hc', can, v2, dn, vn, da, vs⟩ := is
+    obtain ⟨nb, we, wv, ty, wq, d2, cc, hc', can, v2, dn, vn, da, vs, dnf, ip, ds, hs⟩ := is
     ksolve
 
 theorem allowed2_D2 {t : ATid} {p : AProg} (h : allowed2 t p = true)
@@ -232,12 +307,13 @@ theorem allowed2_W {t : ATid} {p : AProg} {u : Nat} (h : allowed2 t p = true)
     (hp : p = .recvWait u ∨ p = .closeWait u) : t = .W u := by
   rcases hp with rfl | rfl <;> cases t <;> simp_all [allowed2]
 
-theorem stepRun2_K {a : ACfg} {s : St} (ib : InvB2 a s) (is : InvS a s) (t : ATid) :
+theorem stepRun2_K {a : ACfg} {s : St} (iy : InvY a s) (ib : InvB2 a s) (is : InvS a s) (t : ATid) :
     InvB2 a (stepRun2 a s t) ∧ InvS a (stepRun2 a s t) := by
   unfold stepRun2
+  have iy0 : InvY a { s with imm2 := false } := iy.frame rfl rfl
   have ib0 : InvB2 a { s with imm2 := false } := InvB2.of_core (s := s) rfl ib
   have is0 : InvS a { s with imm2 := false } := InvS.of_core (s := s) rfl is
-  generalize ({ s with imm2 := false } : St) = s0 at ib0 is0
+  generalize ({ s with imm2 := false } : St) = s0 at iy0 ib0 is0
   simp only
   split
   · -- cancelled: `CancelledError` is delivered
@@ -248,14 +324,7 @@ theorem stepRun2_K {a : ACfg} {s : St} (ib : InvB2 a s) (is : InvS a s) (t : ATi
       rw [hp] at hty
       obtain rfl := allowed2_D2 hty (Or.inr (Or.inl ⟨v, k, rfl⟩))
       refine ⟨InvB2.of_core (s := s0.emit2 (.msgAbandon v)) rfl (ib0.emit2 rfl), ?_⟩
-      obtain ⟨nb, we, wv, ty, wq, d2, cc, hc', can, v2, dn, vn, da, vs⟩ := is0
-      ksolve
-    · rename_i v hp
-      rw [hp] at hty
-      obtain rfl := allowed2_D2 hty (Or.inr (Or.inr (Or.inl ⟨v, rfl⟩)))
-      refine ⟨InvB2.of_core (s := (s0.emit2 (.closeRet (.handler v) .cancelled)).emit2 (.msgAbandon v)) rfl
-        ((ib0.emit2 rfl).emit2 rfl), ?_⟩
-      obtain ⟨nb, we, wv, ty, wq, d2, cc, hc', can, v2, dn, vn, da, vs⟩ := is0
+      obtain ⟨nb, we, wv, ty, wq, d2, cc, hc', can, v2, dn, vn, da, vs, dnf, ip, ds, hs⟩ := is0
       ksolve
     · rename_i v k hp
       rw [hp] at hty
@@ -263,37 +332,30 @@ theorem stepRun2_K {a : ACfg} {s : St} (ib : InvB2 a s) (is : InvS a s) (t : ATi
       split
       · refine ⟨InvB2.of_core (s := (s0.emit2 (.closeRet (.handler v) .ok)).emit2 (.msgAbandon v)) rfl
           ((ib0.emit2 rfl).emit2 rfl), ?_⟩
-        obtain ⟨nb, we, wv, ty, wq, d2, cc, hc', can, v2, dn, vn, da, vs⟩ := is0
+        obtain ⟨nb, we, wv, ty, wq, d2, cc, hc', can, v2, dn, vn, da, vs, dnf, ip, ds, hs⟩ := is0
         ksolve
       · rename_i hg
         simp only [Bool.or_eq_true, not_or, Bool.not_eq_true, Option.isSome_eq_false_iff, Option.isNone_iff_eq_none] at hg
-        exact startClose_K ib0 is0 _ _ hg.1 hg.2 (Or.inr (Or.inl ⟨rfl, hst, v, rfl⟩))
-    · rename_i v hp
-      rw [hp] at hty
-      obtain rfl := allowed2_D2 hty (Or.inr (Or.inr (Or.inr (Or.inr ⟨v, rfl⟩))))
-      refine ⟨InvB2.of_core (s := (s0.emit2 (.closeRet (.handler v) .cancelled)).emit2 (.msgAbandon v)) rfl
-        ((ib0.emit2 rfl).emit2 rfl), ?_⟩
-      obtain ⟨nb, we, wv, ty, wq, d2, cc, hc', can, v2, dn, vn, da, vs⟩ := is0
-      ksolve
+        exact closeOnD2_K iy0 ib0 is0 _ hg.1 hg.2 (Or.inr ⟨hst, v, rfl⟩)
     · rename_i u hp
       rw [hp] at hty
       obtain rfl := allowed2_W hty (Or.inl rfl)
       have ib1 := InvB2.of_core (s' := { s0 with vres2 := none, rcv2Busy := false, q2 := s0.vres2.toList ++ s0.q2 }) (s := s0) rfl ib0
       split
       · refine ⟨InvB2.of_core (s := ({ s0 with vres2 := none, rcv2Busy := false, q2 := s0.vres2.toList ++ s0.q2 } : St).emit2 (.ret u .eoq)) rfl (ib1.emit2 rfl), ?_⟩
-        obtain ⟨nb, we, wv, ty, wq, d2, cc, hc', can, v2, dn, vn, da, vs⟩ := is0
+        obtain ⟨nb, we, wv, ty, wq, d2, cc, hc', can, v2, dn, vn, da, vs, dnf, ip, ds, hs⟩ := is0
         ksolve
       · refine ⟨InvB2.of_core (s := ({ s0 with vres2 := none, rcv2Busy := false, q2 := s0.vres2.toList ++ s0.q2 } : St).emit2 (.ret u .cancelled)) rfl (ib1.emit2 rfl), ?_⟩
-        obtain ⟨nb, we, wv, ty, wq, d2, cc, hc', can, v2, dn, vn, da, vs⟩ := is0
+        obtain ⟨nb, we, wv, ty, wq, d2, cc, hc', can, v2, dn, vn, da, vs, dnf, ip, ds, hs⟩ := is0
         ksolve
     · rename_i u hp
       rw [hp] at hty
       obtain rfl := allowed2_W hty (Or.inr rfl)
       refine ⟨InvB2.of_core (s := s0.emit2 (.closeRet (.user u) .cancelled)) rfl (ib0.emit2 rfl), ?_⟩
-      obtain ⟨nb, we, wv, ty, wq, d2, cc, hc', can, v2, dn, vn, da, vs⟩ := is0
+      obtain ⟨nb, we, wv, ty, wq, d2, cc, hc', can, v2, dn, vn, da, vs, dnf, ip, ds, hs⟩ := is0
       ksolve
     · refine ⟨InvB2.of_core (s := s0) rfl ib0, ?_⟩
-      obtain ⟨nb, we, wv, ty, wq, d2, cc, hc', can, v2, dn, vn, da, vs⟩ := is0
+      obtain ⟨nb, we, wv, ty, wq, d2, cc, hc', can, v2, dn, vn, da, vs, dnf, ip, ds, hs⟩ := is0
       ksolve
   · -- ready
     rename_i hst
@@ -302,49 +364,37 @@ theorem stepRun2_K {a : ACfg} {s : St} (ib : InvB2 a s) (is : InvS a s) (t : ATi
     · rename_i hp
       split
       · rename_i htD; subst htD
-        exact stepDisp2_K ib0 is0 hst hp
+        exact stepDisp2_K iy0 ib0 is0 hst hp
       · exact ⟨ib0, is0⟩
     · rename_i v k hp
       rw [hp] at hty
       obtain rfl := allowed2_D2 hty (Or.inr (Or.inl ⟨v, k, rfl⟩))
       split
-      · exact handlerDone_K ib0 is0 v hst
+      · exact handlerDone_K iy0 ib0 is0 v hst
       · refine ⟨InvB2.of_core (s := s0) rfl ib0, ?_⟩
-        obtain ⟨nb, we, wv, ty, wq, d2, cc, hc', can, v2, dn, vn, da, vs⟩ := is0
+        obtain ⟨nb, we, wv, ty, wq, d2, cc, hc', can, v2, dn, vn, da, vs, dnf, ip, ds, hs⟩ := is0
         ksolve
-    · rename_i v hp
-      rw [hp] at hty
-      obtain rfl := allowed2_D2 hty (Or.inr (Or.inr (Or.inl ⟨v, rfl⟩)))
-      refine ⟨InvB2.of_core (s := (s0.emit2 (.closeRet (.handler v) .ok)).emit2 (.msgExit v)) rfl ((ib0.emit2 rfl).emit2 rfl), ?_⟩
-      obtain ⟨nb, we, wv, ty, wq, d2, cc, hc', can, v2, dn, vn, da, vs⟩ := is0
-      ksolve
     · rename_i v k hp
       rw [hp] at hty
       obtain rfl := allowed2_D2 hty (Or.inr (Or.inr (Or.inr (Or.inl ⟨v, k, rfl⟩))))
       split
       · refine ⟨InvB2.of_core (s := s0.emit2 (.msgExit v)) rfl (ib0.emit2 rfl), ?_⟩
-        obtain ⟨nb, we, wv, ty, wq, d2, cc, hc', can, v2, dn, vn, da, vs⟩ := is0
+        obtain ⟨nb, we, wv, ty, wq, d2, cc, hc', can, v2, dn, vn, da, vs, dnf, ip, ds, hs⟩ := is0
         ksolve
       · refine ⟨InvB2.of_core (s := s0) rfl ib0, ?_⟩
-        obtain ⟨nb, we, wv, ty, wq, d2, cc, hc', can, v2, dn, vn, da, vs⟩ := is0
+        obtain ⟨nb, we, wv, ty, wq, d2, cc, hc', can, v2, dn, vn, da, vs, dnf, ip, ds, hs⟩ := is0
         ksolve
-    · rename_i v hp
-      rw [hp] at hty
-      obtain rfl := allowed2_D2 hty (Or.inr (Or.inr (Or.inr (Or.inr ⟨v, rfl⟩))))
-      refine ⟨InvB2.of_core (s := (s0.emit2 (.closeRet (.handler v) .ok)).emit2 (.msgAbandon v)) rfl ((ib0.emit2 rfl).emit2 rfl), ?_⟩
-      obtain ⟨nb, we, wv, ty, wq, d2, cc, hc', can, v2, dn, vn, da, vs⟩ := is0
-      ksolve
     · rename_i hp
       rw [hp] at hty
       obtain rfl := allowed2_V2 hty
       split
       · refine ⟨InvB2.of_core (s := s0) rfl ib0, ?_⟩
-        obtain ⟨nb, we, wv, ty, wq, d2, cc, hc', can, v2, dn, vn, da, vs⟩ := is0
+        obtain ⟨nb, we, wv, ty, wq, d2, cc, hc', can, v2, dn, vn, da, vs, dnf, ip, ds, hs⟩ := is0
         ksolve
       · split
         · exact ⟨ib0, is0⟩
         · refine ⟨InvB2.of_core (s := s0) rfl ib0, ?_⟩
-          obtain ⟨nb, we, wv, ty, wq, d2, cc, hc', can, v2, dn, vn, da, vs⟩ := is0
+          obtain ⟨nb, we, wv, ty, wq, d2, cc, hc', can, v2, dn, vn, da, vs, dnf, ip, ds, hs⟩ := is0
           ksolve
     · rename_i u hp
       rw [hp] at hty
@@ -352,20 +402,20 @@ theorem stepRun2_K {a : ACfg} {s : St} (ib : InvB2 a s) (is : InvS a s) (t : ATi
       split
       · rename_i v hv
         refine ⟨InvB2.of_core (s := ({ s0 with vres2 := none, rcv2Busy := false, gone2 := s0.gone2 ++ [(v, true)] } : St).emit2 (.ret u (.msg v))) rfl (InvB2.emit2 rfl (InvB2.of_core (s' := { s0 with vres2 := none, rcv2Busy := false, gone2 := s0.gone2 ++ [(v, true)] }) (s := s0) rfl ib0)), ?_⟩
-        obtain ⟨nb, we, wv, ty, wq, d2, cc, hc', can, v2, dn, vn, da, vs⟩ := is0
+        obtain ⟨nb, we, wv, ty, wq, d2, cc, hc', can, v2, dn, vn, da, vs, dnf, ip, ds, hs⟩ := is0
         ksolve
       · split
         · refine ⟨InvB2.of_core (s := ({ s0 with rcv2Busy := false } : St).emit2 (.ret u .eoq)) rfl (InvB2.emit2 rfl (InvB2.of_core (s' := { s0 with rcv2Busy := false }) (s := s0) rfl ib0)), ?_⟩
-          obtain ⟨nb, we, wv, ty, wq, d2, cc, hc', can, v2, dn, vn, da, vs⟩ := is0
+          obtain ⟨nb, we, wv, ty, wq, d2, cc, hc', can, v2, dn, vn, da, vs, dnf, ip, ds, hs⟩ := is0
           ksolve
         · refine ⟨InvB2.of_core (s := ({ s0 with rcv2Busy := false } : St).emit2 (.ret u .cancelled)) rfl (InvB2.emit2 rfl (InvB2.of_core (s' := { s0 with rcv2Busy := false }) (s := s0) rfl ib0)), ?_⟩
-          obtain ⟨nb, we, wv, ty, wq, d2, cc, hc', can, v2, dn, vn, da, vs⟩ := is0
+          obtain ⟨nb, we, wv, ty, wq, d2, cc, hc', can, v2, dn, vn, da, vs, dnf, ip, ds, hs⟩ := is0
           ksolve
     · rename_i u hp
       rw [hp] at hty
       obtain rfl := allowed2_W hty (Or.inr rfl)
       refine ⟨InvB2.of_core (s := s0.emit2 (.closeRet (.user u) .ok)) rfl (ib0.emit2 rfl), ?_⟩
-      obtain ⟨nb, we, wv, ty, wq, d2, cc, hc', can, v2, dn, vn, da, vs⟩ := is0
+      obtain ⟨nb, we, wv, ty, wq, d2, cc, hc', can, v2, dn, vn, da, vs, dnf, ip, ds, hs⟩ := is0
       ksolve
     · exact ⟨ib0, is0⟩
   · exact ⟨ib0, is0⟩
